@@ -21,9 +21,11 @@ def build_gossa():
     os.makedirs(CACHE, exist_ok=True)
     out = os.path.join(CACHE, 'gossa')
     src = os.path.join(VERIF, 'symex', 'gossa')
-    r = sh(['go', 'build', '-o', out, '.'], cwd=src, env=GO_ENV)
+    tmp = out + '.tmp%d' % os.getpid()
+    r = sh(['go', 'build', '-o', tmp, '.'], cwd=src, env=GO_ENV)
     if r.returncode != 0:
         raise RuntimeError('gossa build failed:\n' + r.stdout)
+    os.replace(tmp, out)
     return out
 
 def repo_fingerprint(extra=()):
@@ -82,7 +84,8 @@ def dump_ssa(tags=HARNESS_TAG, cgo=True, name='ssa', extra_args=()):
     if os.path.exists(out):
         return out
     gossa = os.path.join(CACHE, 'gossa')
-    if not os.path.exists(gossa):
+    src = os.path.join(VERIF, 'symex', 'gossa', 'main.go')
+    if not os.path.exists(gossa) or os.path.getmtime(gossa) < os.path.getmtime(src):
         build_gossa()
     # stale dumps of other source states are removed once they are old enough not to belong to a check that is
     # running concurrently against another tree
